@@ -137,6 +137,9 @@ func (r *rapidContext) HandleReset(reset *interop.Reset) (interop.ResetSuccess, 
 	// Wait until invoke error handling has returned before continuing execution
 	r.handlerExecutionMutex.Lock()
 	defer r.handlerExecutionMutex.Unlock()
+	// Re-arm the context for the next generation while no other handler can run: a handler
+	// queued on the mutex must not start on state that is about to be cleared under it
+	defer reinitialize(r)
 
 	// Clear the context used by the last invoke
 	r.appCtx.Delete(appctx.AppCtxInvokeErrorTraceDataKey)
